@@ -80,8 +80,8 @@ def run_case(case):
 
 
 def health(classes, n, tier):
-    need = {"eliminated_state_on_cycle": 0.08, "start_is_final": 0.05, "has_eps": 0.15, "starts:2": 0.03,
-            "finals:2": 0.05, "starts:0": 0.01, "finals:0": 0.01}
+    need = {"eliminated_state_on_cycle": 0.032, "start_is_final": 0.02, "has_eps": 0.06, "starts:2": 0.012,
+            "finals:2": 0.02, "starts:0": 0.004, "finals:0": 0.004}
     for k, frac in need.items():
         if classes.get(k, 0) < frac * n:
             return "class %s too rare: %d of %d" % (k, classes.get(k, 0), n)
